@@ -108,6 +108,8 @@ NORM_TESTS = {
     "is_dict(annotation)": "NIsDict",
     "annotation in builtin_types": "NInBuiltins",
     "inspect.isclass(annotation)": "NIsClass",
+    "annotation is Ellipsis": "NIsEllipsis",
+    "annotation is ...": "NIsEllipsis",
 }
 NORM_BODIES = {
     "AUnion": ["union_args = typing.get_args(annotation)",
@@ -300,4 +302,5 @@ def emit(repo: str) -> str:
         "Definition norm_gen := norm NORM_TABLE_GEN NORM_ELSE_GEN.\n"
         "Definition resolve_gen := resolve NORM_TABLE_GEN NORM_ELSE_GEN FORWARD_REFS_GEN.\n"
         "Definition wrapper_fields_gen := wrapper_fields FIELD_KINDS_GEN.\n"
+        "Definition field_types_gen := field_types NORM_TABLE_GEN NORM_ELSE_GEN FORWARD_REFS_GEN FIELD_KINDS_GEN.\n"
     )
